@@ -1,8 +1,9 @@
 (* private extraction file of the writer-model slice `wmodel` (development only; see SLICE_GUIDE.md).
-   At integration add to coq/Extract.v:  From JLS Require Import ... Format WmRaw WmCore WmTs WmFsr WriterModel.
-   and the names  WriterModel.wm_run WriterModel.wm_run_full WriterModel.wm_step WriterModel.wm_step_rc
-                  WriterModel.wm_api_open WriterModel.wm_api_close WriterModel.wm_st_log WriterModel.wm_st_fault
-                  WriterModel.wm_find_sig  *)
+   At integration: coq/Extract.v gets  `From JLS Require Import ... Format WmRaw WmCore WmTs WmFsr WriterModel.`  and the names
+     WriterModel.wm_run WriterModel.wm_run_full WriterModel.wm_step WriterModel.wm_step_rc
+     WriterModel.wm_api_open WriterModel.wm_api_close WriterModel.wm_st_log WriterModel.wm_st_fault WriterModel.wm_find_sig
+   (ocaml/drv_wmodel.ml uses wm_api_open, wm_step_rc, wm_api_close, wm_st_log, wm_st_fault and the types wop, wm_entry);
+   ocaml/DRIVERS gets drv_wmodel.ml. *)
 From Coq Require Import Extraction ExtrOcamlBasic NArith ZArith QArith Qreduction List.
 From JLS Require Import Generated CrcDefs Spec Format WmRaw WmCore WmTs WmFsr WriterModel.
 Extraction Language OCaml.
